@@ -526,7 +526,10 @@ class Exec(Engine):
             if key in self.reg.attr_models: return self.reg.attr_models[key](self, st, b, node)
             if t.n == 'Dyn':
                 from . import dyn
-                return [(st, V(t, dyn.ATTR(b.z, z3.StringVal(self.mangle(st, attr)))))]
+                name = self.mangle(st, attr); z = dyn.ATTR(b.z, z3.StringVal(name))
+                for rz, an, vz in reversed(st.ghost.get('__dynstores', ())):
+                    if an == name: z = z3.If(b.z == rz, vz, z)
+                return [(st, V(t, z))]
             return [(st, V(FUNC, BoundModel(key, b)))]
         if isinstance(t, RecT):
             return [(st, V(FUNC, BoundBuiltin(attr, b)))]
